@@ -296,7 +296,7 @@ Section Theorems.
       { intros Hpos. destruct (s_rx_fin_received s) eqn:Efin; [|reflexivity]. exfalso.
         pose proof (Hfin eq_refl) as HF1.
         assert (0 < n) by (unfold trim_len in Hpl; lia).
-        specialize (HFseg ltac:(lia) _ HF1). unfold wsq, finz in HFseg. rewrite Efin in HFseg. cbn [b2z] in HFseg.
+        specialize (HFseg ltac:(lia) ltac:(unfold trim_len in Hpl; lia) _ HF1). unfold wsq, finz in HFseg. rewrite Efin in HFseg. cbn [b2z] in HFseg.
         unfold trim_len in Hpl. lia. }
       pose proof (payload_synced (S (g_epoch g)) (F (g_epoch g)) (g_have g)
                     (have_seg (g_have g) (g_consumed g) s r) (g_consumed g) s7 cx ip r payload off
@@ -318,7 +318,7 @@ Section Theorems.
         assert (Hwsq : wsq (g_consumed g) s = g_consumed g + rb_len (s_rx_buffer s))
           by (unfold wsq, finz; rewrite Efin; cbn [b2z]; lia).
         assert (0 < n) by (unfold trim_len in Hpl; lia).
-        specialize (HFseg ltac:(lia) f Hf). subst off. rewrite Hpl. unfold trim_off, trim_len. lia.
+        specialize (HFseg ltac:(lia) ltac:(unfold trim_len in Hpl; lia) f Hf). subst off. rewrite Hpl. unfold trim_off, trim_len. lia.
       + rewrite E. discriminate.
     - destruct Hinv as (Hu & _). pose proof Hu as (_ & _ & _ & _ & _ & _ & Hst).
       destruct (s_state s) eqn:Est; try contradiction.
